@@ -5,6 +5,7 @@ use vstd::prelude::*;
 
 verus! {
 
+//@@ gsubst `serde_amqp::serde::de::Error::custom(__E1)` => `err_custom()` rule=R9
 //@@ gsubst `de::Error::custom(__E1)` => `err_custom()` rule=R9
 //@@ trusted written by tools/mkdispatch.py from a table: the descriptor codes and names of each group are taken from the AMQP 1.0 specification text (reference per group), not from the code; the error value a dispatcher builds (`de::Error::custom(..)`, with or without `format!`) is a stand-in; R39: a `match` over string-literal patterns is the chain of equality tests it denotes
 //@@ trusted the Field enums are extracted with every `#[cfg(feature = "transaction")]` variant present (the units describe the build with `transaction` and `acceptor` on, R12)
@@ -238,6 +239,56 @@ impl FieldVisitor {
 //@@ end
 }
 } // mod body_section
+
+// ================================================================ message_section (fe2o3-amqp-types/src/messaging/message/mod.rs)
+pub mod message_section {
+use super::*;
+//@@ type file=fe2o3-amqp-types/src/messaging/message/mod.rs kind=enum name=Field
+//@@ end
+//@@ strlits lemma=lemma_names_distinct `[C03.descriptor.names-distinct] [C05.descriptor.names-distinct] [C04.descriptor.names-distinct] [C01.descriptor.names-distinct] the descriptor names of this group are pairwise different strings` `amqp:header:list|amqp:delivery-annotations:map|amqp:message-annotations:map|amqp:properties:list|amqp:application-properties:map|amqp:data:binary|amqp:amqp-sequence:list|amqp:amqp-value:*|amqp:footer:map`
+pub struct FieldVisitor {}
+impl FieldVisitor {
+//@@ fn file=fe2o3-amqp-types/src/messaging/message/mod.rs impl=`impl de::Visitor<'_> for FieldVisitor` name=visit_u64 id=message_section::visit_u64
+//@@ generics
+//@@ nowhere
+//@@ orsplit
+//@@ blockarms
+//@@ ret Result<Field, ErrS>
+//@@ spec
+    ensures
+        v == 0x70 ==> r == Ok::<Field, ErrS>(Field::Header),       // [C03.descriptor.by-code] [C05.descriptor.by-code] [C04.descriptor.by-code] [C01.descriptor.by-code] AMQP 1.0 part 3, 3.2.1-3.2.9: descriptor code 0x00000000:0x00000070 is amqp:header:list -- decoded as that and as nothing else
+        v == 0x71 ==> r == Ok::<Field, ErrS>(Field::DeliveryAnnotations),       // [C03.descriptor.by-code] [C05.descriptor.by-code] [C04.descriptor.by-code] [C01.descriptor.by-code] AMQP 1.0 part 3, 3.2.1-3.2.9: descriptor code 0x00000000:0x00000071 is amqp:delivery-annotations:map -- decoded as that and as nothing else
+        v == 0x72 ==> r == Ok::<Field, ErrS>(Field::MessageAnnotations),       // [C03.descriptor.by-code] [C05.descriptor.by-code] [C04.descriptor.by-code] [C01.descriptor.by-code] AMQP 1.0 part 3, 3.2.1-3.2.9: descriptor code 0x00000000:0x00000072 is amqp:message-annotations:map -- decoded as that and as nothing else
+        v == 0x73 ==> r == Ok::<Field, ErrS>(Field::Properties),       // [C03.descriptor.by-code] [C05.descriptor.by-code] [C04.descriptor.by-code] [C01.descriptor.by-code] AMQP 1.0 part 3, 3.2.1-3.2.9: descriptor code 0x00000000:0x00000073 is amqp:properties:list -- decoded as that and as nothing else
+        v == 0x74 ==> r == Ok::<Field, ErrS>(Field::ApplicationProperties),       // [C03.descriptor.by-code] [C05.descriptor.by-code] [C04.descriptor.by-code] [C01.descriptor.by-code] AMQP 1.0 part 3, 3.2.1-3.2.9: descriptor code 0x00000000:0x00000074 is amqp:application-properties:map -- decoded as that and as nothing else
+        v == 0x75 ==> r == Ok::<Field, ErrS>(Field::Body),       // [C03.descriptor.by-code] [C05.descriptor.by-code] [C04.descriptor.by-code] [C01.descriptor.by-code] AMQP 1.0 part 3, 3.2.1-3.2.9: descriptor code 0x00000000:0x00000075 is amqp:data:binary -- decoded as that and as nothing else
+        v == 0x76 ==> r == Ok::<Field, ErrS>(Field::Body),       // [C03.descriptor.by-code] [C05.descriptor.by-code] [C04.descriptor.by-code] [C01.descriptor.by-code] AMQP 1.0 part 3, 3.2.1-3.2.9: descriptor code 0x00000000:0x00000076 is amqp:amqp-sequence:list -- decoded as that and as nothing else
+        v == 0x77 ==> r == Ok::<Field, ErrS>(Field::Body),       // [C03.descriptor.by-code] [C05.descriptor.by-code] [C04.descriptor.by-code] [C01.descriptor.by-code] AMQP 1.0 part 3, 3.2.1-3.2.9: descriptor code 0x00000000:0x00000077 is amqp:amqp-value:* -- decoded as that and as nothing else
+        v == 0x78 ==> r == Ok::<Field, ErrS>(Field::Footer),       // [C03.descriptor.by-code] [C05.descriptor.by-code] [C04.descriptor.by-code] [C01.descriptor.by-code] AMQP 1.0 part 3, 3.2.1-3.2.9: descriptor code 0x00000000:0x00000078 is amqp:footer:map -- decoded as that and as nothing else
+//@@ end
+
+//@@ fn file=fe2o3-amqp-types/src/messaging/message/mod.rs impl=`impl de::Visitor<'_> for FieldVisitor` name=visit_str id=message_section::visit_str
+//@@ generics
+//@@ nowhere
+//@@ orsplit
+//@@ blockarms
+//@@ ret Result<Field, ErrS>
+//@@ entry
+    proof { lemma_names_distinct(); }
+//@@ spec
+    ensures
+        v@ == "amqp:header:list"@ ==> r == Ok::<Field, ErrS>(Field::Header),       // [C03.descriptor.by-name] [C05.descriptor.by-name] [C04.descriptor.by-name] [C01.descriptor.by-name] AMQP 1.0 part 3, 3.2.1-3.2.9: the same type announced by its symbolic descriptor decodes to the same variant as by its code
+        v@ == "amqp:delivery-annotations:map"@ ==> r == Ok::<Field, ErrS>(Field::DeliveryAnnotations),       // [C03.descriptor.by-name] [C05.descriptor.by-name] [C04.descriptor.by-name] [C01.descriptor.by-name] AMQP 1.0 part 3, 3.2.1-3.2.9: the same type announced by its symbolic descriptor decodes to the same variant as by its code
+        v@ == "amqp:message-annotations:map"@ ==> r == Ok::<Field, ErrS>(Field::MessageAnnotations),       // [C03.descriptor.by-name] [C05.descriptor.by-name] [C04.descriptor.by-name] [C01.descriptor.by-name] AMQP 1.0 part 3, 3.2.1-3.2.9: the same type announced by its symbolic descriptor decodes to the same variant as by its code
+        v@ == "amqp:properties:list"@ ==> r == Ok::<Field, ErrS>(Field::Properties),       // [C03.descriptor.by-name] [C05.descriptor.by-name] [C04.descriptor.by-name] [C01.descriptor.by-name] AMQP 1.0 part 3, 3.2.1-3.2.9: the same type announced by its symbolic descriptor decodes to the same variant as by its code
+        v@ == "amqp:application-properties:map"@ ==> r == Ok::<Field, ErrS>(Field::ApplicationProperties),       // [C03.descriptor.by-name] [C05.descriptor.by-name] [C04.descriptor.by-name] [C01.descriptor.by-name] AMQP 1.0 part 3, 3.2.1-3.2.9: the same type announced by its symbolic descriptor decodes to the same variant as by its code
+        v@ == "amqp:data:binary"@ ==> r == Ok::<Field, ErrS>(Field::Body),       // [C03.descriptor.by-name] [C05.descriptor.by-name] [C04.descriptor.by-name] [C01.descriptor.by-name] AMQP 1.0 part 3, 3.2.1-3.2.9: the same type announced by its symbolic descriptor decodes to the same variant as by its code
+        v@ == "amqp:amqp-sequence:list"@ ==> r == Ok::<Field, ErrS>(Field::Body),       // [C03.descriptor.by-name] [C05.descriptor.by-name] [C04.descriptor.by-name] [C01.descriptor.by-name] AMQP 1.0 part 3, 3.2.1-3.2.9: the same type announced by its symbolic descriptor decodes to the same variant as by its code
+        v@ == "amqp:amqp-value:*"@ ==> r == Ok::<Field, ErrS>(Field::Body),       // [C03.descriptor.by-name] [C05.descriptor.by-name] [C04.descriptor.by-name] [C01.descriptor.by-name] AMQP 1.0 part 3, 3.2.1-3.2.9: the same type announced by its symbolic descriptor decodes to the same variant as by its code
+        v@ == "amqp:footer:map"@ ==> r == Ok::<Field, ErrS>(Field::Footer),       // [C03.descriptor.by-name] [C05.descriptor.by-name] [C04.descriptor.by-name] [C01.descriptor.by-name] AMQP 1.0 part 3, 3.2.1-3.2.9: the same type announced by its symbolic descriptor decodes to the same variant as by its code
+//@@ end
+}
+} // mod message_section
 
 // ================================================================ target_archetype (fe2o3-amqp-types/src/messaging/target.rs)
 pub mod target_archetype {
